@@ -26,6 +26,11 @@ class AtomsMD(Ext):
         self.log = []
         self.momenta_version = 0
         self.force_evals = 0
+        # the calculator cache may hold results of ANOTHER configuration (ASE cache protocol):
+        # reading calc.results directly yields unconstrained values
+        self.stale_forces = Tensor((k, 3), [I.path.fresh(f"stale_force{tag}{i}") for i in range(3 * k)])
+        self.dof = I.path.fresh(f"dof{tag}", "int")
+        I.path.assume(z3.And(self.dof.t >= 1, self.dof.t <= 3 * k))
 
     def py_len(self, I):
         return self.k
@@ -78,8 +83,18 @@ class AtomsMD(Ext):
                 self.log.append(("get_kinetic_energy", self.momenta_version))
                 return self.kinetic(I_)
             return Builtin("get_kinetic_energy", ke)
+        if name == "set_array":
+            def sa(I_, a, k):
+                if a[0] != "momenta":
+                    raise Unsupported(f"set_array({a[0]!r}) (MD view)")
+                self.log.append(("set_array", "momenta"))
+                self.momenta = a[1].copy()
+                self.momenta_version += 1
+            return Builtin("set_array", sa)
         if name == "get_number_of_degrees_of_freedom":
-            return Builtin("get_dof", lambda I_, a, k: 3 * self.k)
+            return Builtin("get_dof", lambda I_, a, k: self.dof)
+        if name == "calc":
+            return StaleCalc(self)
         raise Unsupported(f"Atoms.{name} (MD view)")
 
     def py_setattr(self, I, name, value):
@@ -88,3 +103,21 @@ class AtomsMD(Ext):
             self.positions = value.copy() if isinstance(value, Tensor) else value
             return
         raise Unsupported(f"set Atoms.{name} (MD view)")
+
+
+class StaleCalc(Ext):
+    type_name = "Calculator(cache of another configuration)"
+
+    def __init__(self, atoms):
+        self.atoms = atoms
+
+    def py_getattr(self, I, name):
+        if name == "results":
+            return {"forces": self.atoms.stale_forces.copy(), "energy": I.path.fresh("stale_energy")}
+        raise Unsupported(f"calc.{name} (MD view)")
+
+    def py_setattr(self, I, name, value):
+        if name == "results":
+            self.atoms.log.append(("calc.results=",))
+            return
+        raise Unsupported(f"set calc.{name} (MD view)")
